@@ -75,6 +75,9 @@ pub fn clock_now() -> Option<u128> {
     backend().and_then(|b| b.clock_now())
 }
 
+/// per-simulated-thread storage (std's is per OS thread, which all simulated threads share)
+pub use shuttle::thread_local;
+
 /// Mirror of `std::sync` for the items the pool uses; everything else is re-exported.
 pub mod sync {
     pub use shuttle::sync::atomic;
@@ -99,7 +102,7 @@ pub mod sync {
     pub struct Condvar(shuttle::sync::Condvar);
 
     impl Condvar {
-        pub fn new() -> Self {
+        pub const fn new() -> Self {
             Condvar(shuttle::sync::Condvar::new())
         }
         pub fn wait<'a, T>(&self, guard: MutexGuard<'a, T>) -> LockResult<MutexGuard<'a, T>> {
@@ -154,7 +157,7 @@ pub mod sync {
     pub struct Mutex<T: ?Sized>(shuttle::sync::Mutex<T>);
 
     impl<T> Mutex<T> {
-        pub fn new(value: T) -> Self {
+        pub const fn new(value: T) -> Self {
             Mutex(shuttle::sync::Mutex::new(value))
         }
         pub fn into_inner(self) -> LockResult<T> {
@@ -263,6 +266,7 @@ pub mod sync {
 /// `JoinHandle::join` returns.
 pub mod thread {
     pub use shuttle::thread::{current, panicking, park, sleep, yield_now, Result, Thread, ThreadId};
+    pub use std::thread::available_parallelism;
 
     pub fn park_timeout(dur: std::time::Duration) {
         crate::verif::sync_point();
